@@ -156,8 +156,8 @@ theorem addExpr_src_subtypeOf (G : GLang) (c : GCfg) (hcT : c.withCanonicalTypes
   refine ⟨(srcBody_step h).2, ?_⟩
   unfold srcBody at h
   simp only [] at h
-  have hcond : (c.withTypes && (inCanon G t.toTerm || c.withNoncanonicalTypes)) = true := by
-    rw [inCanon_toTerm, hTy, hC]; simp
+  have hcond : (c.withTypes && (inCanon G (normT G.store t.toTerm) || c.withNoncanonicalTypes)) = true := by
+    rw [GraphN.normT_toTerm, inCanon_toTerm, hTy, hC]; simp
   rw [if_pos hcond] at h
   split at h
   · cases h
@@ -195,10 +195,11 @@ theorem annotateType_false_subtypeOf (G : GLang) (c : GCfg) (g : GState) (root :
     · simp only [Prod.mk.injEq, Node.tf.injEq] at ht
       exact absurd ht.2.1 (by decide)
 
-/-- **stale source type**: a new source leaf whose STORED type is not canonical (for instance because it still shows
-a variable that has been bound since) gets no `subtypeOf` triple, whatever `normT G.store ty` is -/
+/-- a new source leaf whose type - FOLLOWED through the final store - is not canonical gets no `subtypeOf` triple
+(before the repair of defect D30 the test was made on the stored type object, so a source whose variable had been bound
+to a canonical type after it was fixed got none either) -/
 theorem addExpr_src_stale (G : GLang) (c : GCfg) (root : Node) (origin : Option Node) (g : GState) (id : Nat)
-    (lbl : Option String) (ty : Term) (hC : inCanon G ty = false)
+    (lbl : Option String) (ty : Term) (hC : inCanon G (normT G.store ty) = false)
     (hnew : g.srcNodes.find? (fun p => p.1 == id) = none) (cur : Option Nat) (inter : Bool) (g' : GState) (n : Nat)
     (h : addExpr G c root origin g (.src id lbl ty) cur inter = .ok (g', n)) (s o : Node)
     (ht : (s, Node.tf "subtypeOf", o) ∈ g'.triples) : (s, Node.tf "subtypeOf", o) ∈ g.triples := by
